@@ -165,3 +165,76 @@ def adapt_check(prop, tier, seed, replay=None):
              'struct-like parameter variants (tagged, mixed, embedded, tagged-embedded, no eligible fields, pointer, self-strict) x SetStrict x AllowArray x 13 params shapes, non-struct kinds x params shapes, '
              'Positional arities 1..6 x 12 params shapes (null / wrong element at every position), name-list lengths 0..7, Args lengths 0..4 and Obj shapes; called/not-called/InvalidParams from the table, received values compared with encoding/json',
         trusted=['parameter concretisation and the independent array-to-field translation in harness/adaptfam', 'encoding/json as the value oracle', 'TLC evaluation of spec/HandlerAdapt.tla'])
+
+def getter_check(prop, tier, seed, replay=None):
+    t0 = time.time()
+    work = C.scratch('get_' + prop)
+    try:
+        # design level: the HTTP channel model, and its sensitivity to finding F11
+        design = C.model_check('httpchan', 'HttpChan', timeout=600)
+        w = C.scratch('tlcbad')
+        try:
+            rc, out = C.run_tlc(w, 'HttpChan', C.read_cfg('httpchan_f11'), timeout=300)
+            if 'Invariant BodiesClosedAtRest is violated' not in out:
+                raise C.ToolError('HttpChan sensitivity run (F11 switch off) did not find the expected violation')
+        finally:
+            shutil.rmtree(w, ignore_errors=True)
+        out = os.path.join(work, 'qtable.json')
+        rc, txt = C.run_tlc(work, 'QueryTyping', 'SPECIFICATION Spec\nCONSTANTS MaxLen = %d\n' % (3 if tier == 'quick' else 4), workers=1, timeout=2400, env={'OUT': out}, cfgname='qt_export.cfg')
+        if not os.path.exists(out) or 'Model checking completed' not in txt:
+            raise C.ToolError('TLC evaluation of QueryTyping failed (rc=%s):\n%s' % (rc, txt[-3000:]))
+        ncells = json.load(open(out))['ncells']
+        binp = C.build_harness('getfam', work)
+        results, crashes = run_shards(binp, 'TestQuery', work, C.NCPU, dict(VERIF_TABLE=out, VERIF_PART='query', VERIF_SEED=str(seed)), timeout=3000)
+        # (c) HTTP channel behaviours from the model
+        behs = C.simulate_states('httpchan', 'HttpChan', 200 if tier == 'quick' else 3000, 14, seed * 13 + 5)
+        scs = []
+        def proj(st):
+            g = st.get('g')
+            if g is None: return None
+            nd = sum(1 for x in g if x['st'] == 'deliver')
+            alldone = all(x['st'] == 'done' for x in g)
+            auto = (st['recvpc'] == 'wait' and (nd > 0 or st['closepc'] == 'ret')) or (st['closepc'] == 'drain' and (nd > 0 or alldone))
+            if auto: return None          # the model has not yet taken a step that happens by itself
+            return dict(Nopen=st['nopen'], Nclosed=st['nclosed'], Nrecv=st['nrecv'], Neof=st['neof'], Refused=st['refused'], Ndeliver=nd, Closepc=st['closepc'])
+        for bi, beh in enumerate(behs):
+            steps = []
+            for act, a, st in beh:
+                step = None
+                if act == 'Send': step = dict(a='send', kind=a[0])
+                elif act == 'DoRet': step = dict(a='doret', i=a[0])
+                elif act == 'RecvStart': step = dict(a='recv')
+                elif act == 'CloseStart': step = dict(a='close')
+                elif act in ('RecvTake', 'RecvEOF', 'Drain', 'CloseRet', 'Init'): step = None
+                else: raise C.ToolError('unknown HttpChan action ' + act)
+                if step is None:
+                    if steps: steps[-1]['state'] = proj(st)
+                    continue
+                step['state'] = proj(st)
+                steps.append(step)
+            scs.append(dict(name='httpchan-%d' % bi, steps=steps))
+        sp = os.path.join(work, 'hscn.ndjson')
+        with open(sp, 'w') as f:
+            for s in scs: f.write(json.dumps(s) + '\n')
+        w2 = os.path.join(work, 'h'); os.makedirs(w2)
+        r2, c2 = run_shards(binp, 'TestHTTPChan', w2, C.NCPU, dict(VERIF_PART='httpchan', VERIF_SCENARIOS=sp), timeout=1500)
+        w3 = os.path.join(work, 'e'); os.makedirs(w3)
+        r3, c3 = run_shards(binp, 'TestEquiv', w3, 1, dict(VERIF_PART='equiv'), timeout=600)
+        violations = [v for r in results + r2 + r3 for v in (r.get('violations') or []) if v['property'] == prop]
+        for c in crashes + c2 + c3:
+            if not library_crash(c['log']):
+                raise C.ToolError('getfam shard crashed outside the library: ' + c['log'][-1500:])
+            violations.append(dict(property=prop, input='(see log)', why='the library crashed the process: ' + c['log'][-900:]))
+        classes = {}
+        for r in results:
+            for k, n in (r.get('classes') or {}).items(): classes[k] = classes.get(k, 0) + n
+        samples = [s for r in results + r3 for s in (r.get('samples') or [])][:6]
+        return finish(prop, tier, seed, t0, 'model_checking', ncells + design['states'], results + r2 + r3, crashes, violations,
+                      rule='(a) every query value of <= %d tokens over 25 token classes (quotes, signs, digits, dot, e, x, _, letters, base64, padding, space, backslash, inf/nan/true/false/null in several cases) = %d values typed by '
+                           'spec/QueryTyping.tla and replayed into ParseQuery, ParseBasic and a real Getter (status, JSON body); paths and the status mapping; (c) %d behaviours simulated by TLC from spec/HttpChan.tla '
+                           '(exhaustively checked: %d states) replayed into a real jhttp.Channel with gated round trips and counted response bodies, comparing the projected state after every action; '
+                           '(b) one Call/Notify/Batch/CallResult workload over jhttp.Channel+Bridge and over a direct connection' % (3 if tier == 'quick' else 4, ncells, len(scs), design['states']),
+                      samples=samples, extra=dict(typing_classes=classes, httpchan_behaviours=len(scs), design_runs=[design]),
+                      trusted=['token-to-text mapping and result classification in harness/getfam', 'strconv/base64 as value oracles', 'TLC'])
+    finally:
+        shutil.rmtree(work, ignore_errors=True)
